@@ -11,7 +11,7 @@ LEVEL = "exploration"
 SHARDS = {"quick": 8, "thorough": 16}
 TECHNIQUE = "model-based testing: Hypothesis operation sequences (expand/shrink/copy/validate/str/sort) on one " \
             "HedString against a tree model; acceptance table for definition faults; permuted Def-expand content"
-LEVEL_TEXT = ("(a) each generated definition (valid or with one of 11 faults) is accepted into a DefinitionDict iff the "
+LEVEL_TEXT = ("(a) each generated definition (valid or with one of 13 faults) is accepted into a DefinitionDict iff the "
               "reference rules accept it, else DEFINITION_INVALID; (b) operation histories of up to 12 steps on one "
               "annotation object must keep str(obj) equal (as an unordered tree) to the model after every step, never "
               "raise, leave earlier copies untouched, and validate clean; (c) the true Def-expand content under any "
@@ -28,7 +28,7 @@ VERSION = "8.3.0"
 OPS = ["expand", "shrink", "copy", "validate", "str", "sort", "expand", "shrink"]
 DEF_FAULTS = ["two_groups", "extra_tag", "slash_in_name", "hash_in_name", "nested_def", "nested_defexpand",
               "nested_definition", "no_hash_but_takes", "two_hash", "hash_without_takes", "hash_on_plain_tag",
-              "duplicate_name"]
+              "duplicate_name", "two_hash_without_takes"]
 
 
 def occ(d, value, written):
@@ -253,6 +253,10 @@ def acceptance_case(draw):
             if d["takes"]:
                 continue
             strings = [f"(Definition/{name}, ({content}, {valued[0].short}/#))"]
+        elif f == "two_hash_without_takes":
+            if d["takes"]:
+                continue
+            strings = [f"(Definition/{name}, ({content}, {valued[0].short}/#, {valued[1].short}/#))"]
         elif f == "hash_on_plain_tag":
             if d["takes"]:
                 continue
